@@ -310,15 +310,19 @@ class Interval:
     def sqrt(self) -> "Interval":
         """Square root of interval."""
         from integral.poly import normalize_constant
+        left_open = self.left_open
         if eval_expr(self.start) <= 0:
             start = expr.Const(0)
+            if eval_expr(self.start) < 0:
+                # The argument can be zero, so zero is attained
+                left_open = False
         else:
             start = normalize_constant(expr.Fun('sqrt', self.start))
         if self.end == expr.POS_INF:
             end = expr.POS_INF
         else:
             end = normalize_constant(expr.Fun('sqrt', self.end))
-        return Interval(start, end, self.left_open, self.right_open)
+        return Interval(start, end, left_open, self.right_open)
 
     def exp(self) -> "Interval":
         """Exp function of an interval."""
